@@ -46,12 +46,12 @@ def spaces(ctx):
     if ctx.tier == "quick":
         return {
             "attributes": (P.attribute_pages(ntexts=8, nconfs=5, nheights=4, ncoords=3, region_attrs=True), QUICK_ATTR_BEH),
-            "structure": (P.structure_pages(["r1", "r2", "r3"], 1, {"r1": 2, "r3": 1}), QUICK_STRUCT_BEH),
+            "structure": (P.structure_pages(["r1", "r2", "r3"], [0, 7], {"r1": 2, "r3": 1}), QUICK_STRUCT_BEH),
         }
     return {
         "attributes": (P.attribute_pages(ntexts=12, nconfs=7, nheights=5, ncoords=4, region_attrs=True),
                        QUICK_ATTR_BEH + [(1, 1, "ctor", "ctor"), (2, 2, "string", "string")]),
-        "structure": (P.structure_pages(["r1", "r2", "r3"], 2, {"r1": 2, "r3": 1}),
+        "structure": (P.structure_pages(["r1", "r2", "r3"], [0, 1, 7], {"r1": 2, "r3": 1}),
                       [(v1, v2, a, b, pm) for (v1, v2), (a, b) in zip([(1, 1), (2, 2), (1, 2), (2, 1)] * 3, ALL_VIAS)
                        for pm in (("id", "rev", "rot") if a == "ctor" else ("id",))]),
     }
